@@ -13,6 +13,7 @@ import Gtree.Lemmas.MkOrder
 import Gtree.Lemmas.VerifyOrder
 import Gtree.Lemmas.MkInterleave
 import Gtree.Lemmas.InterleavePerm
+import Gtree.Lemmas.GenFacts
 /-
   C10 — massive mode is the simple mode up to the order of roots: the parts that are logic.
   (1) Printer: with the mutex held around the printing of a whole root, the output of every schedule
@@ -439,4 +440,15 @@ theorem C10_facts_workers_run_the_translated_functions :
     exact ⟨h', hrun⟩
   · intro dm h t fs p par lvl fuel hr hf
     exact SrcH.mk_node dm h t fs p par lvl fuel hr hf
+end Gtree
+
+namespace Gtree
+
+/-- **C10 (facts: the massive generator).**  The worker of the massive mode's generator stage runs, for the rows of its
+    block, the same row step as the simple mode's generators, and its format error names the row it was given. -/
+theorem C10_facts_massive_generator_runs_the_same_row_step :
+    coreOf (lookupL "rootGeneratorPipeline.worker" Facts.genSkeleton) = coreOf (lookupL "rootGeneratorSimple.generate" Facts.genSkeleton) ∧
+    coreOf (lookupL "rootGeneratorPipeline.worker" Facts.genSkeleton) = coreOf (lookupL "rootGeneratorSimple.generateIter" Facts.genSkeleton) ∧
+    (lookupL "rootGeneratorPipeline.worker" Facts.genSkeleton).contains "inputFormatError:row: row" = true := by decide
+
 end Gtree
